@@ -1,0 +1,30 @@
+//go:build verif
+// +build verif
+
+package calendar
+
+// VerifCacheLockHeld reports whether the lunar-year cache mutex is currently held.
+func VerifCacheLockHeld() bool {
+	if lock.TryLock() {
+		lock.Unlock()
+		return false
+	}
+	return true
+}
+
+// VerifCacheYear returns the year currently held by the one-slot cache.
+func VerifCacheYear() (int, bool) {
+	lock.Lock()
+	defer lock.Unlock()
+	if nil == CACHE_YEAR {
+		return 0, false
+	}
+	return CACHE_YEAR.year, true
+}
+
+// VerifResetCache empties the one-slot cache.
+func VerifResetCache() {
+	lock.Lock()
+	defer lock.Unlock()
+	CACHE_YEAR = nil
+}
